@@ -57,7 +57,11 @@ Section Chk.
       run test_F g keep (d_obs c) (fun _ _ l => l) (d_fuel c) ps (d_init c) (d_first c)
           (d_tend c) (d_max c) 0 0 in
     list_eqb sev_eqb evs (x_evs x) && end_matches e (x_end x) && String.eqb nx (x_next x)
-    && list_eqb (opt_eqb val_eqb) (map s (d_obs c)) (x_final x).
+    && match x_end x with
+       | XUserExn | XCrashExn => true   (* the state right after an exception depends on the admissible
+                                           order the backend happened to use (C11 states what holds) *)
+       | _ => list_eqb (opt_eqb val_eqb) (map s (d_obs c)) (x_final x)
+       end.
 
   (* generated code lowers loops to Python `for` statements and never deletes the counter
      explicitly (locals vanish with the frame): modelled by the non-raising removal *)
